@@ -95,6 +95,7 @@ func c10UntouchedOnly(c *Ctx, v *FnView, e *E1, dir string, reasons ...Guard) {
 
 func runC10(c *Ctx) {
 	slowPathStateFresh(c, "S1-per-packet-state")
+	c10ReplyPassesSrcDst(c)
 	ext := c.Const("router.External")
 	// T1: who consumes the alert
 	if v := c.View(procT + ".handleIngressRouterAlert"); v != nil {
